@@ -3,6 +3,7 @@ package bridge
 import (
 	"context"
 	"encoding/json"
+	"errors"
 	"fmt"
 
 	abci "github.com/cometbft/cometbft/abci/types"
@@ -148,7 +149,15 @@ func (am AppModule) EndBlock(ctx context.Context) error {
 	}
 	_, err := am.keeper.CompareAndSetBridgeValidators(sdkCtx)
 	if err != nil {
-		return err
+		if !errors.Is(err, keeper.ErrNoBridgeValidators) {
+			return err
+		}
+		// no bonded validator has a registered EVM address (validators may run without a bridge key, and the
+		// registered ones may leave the bonded set): there is no set to checkpoint, but block production must go on
+		if _, cerr := am.keeper.GetValidatorCheckpointFromStorage(sdkCtx); cerr != nil {
+			// no checkpoint was ever recorded, so there is nothing a snapshot could commit to
+			return nil
+		}
 	}
 
 	return am.keeper.CreateNewReportSnapshots(sdkCtx)
